@@ -2,7 +2,7 @@
 # coverage.sh [tier]: which lines of /repo/src does a tier of the checks execute at all?
 # Builds circ-mc with source-based coverage (nightly toolchain) in a scratch directory, runs every
 # check of the tier with evidence and replays redirected, and writes the per-file summary plus the
-# list of never-executed lines to /verif/work/coverage-<tier>.txt. A line that no check executes is
+# list of never-executed lines to /verif/notes/coverage-<tier>.txt. A line that no check executes is
 # behaviour no check can be said to cover; the converse does not hold.
 set -u
 tier=${1:-quick}
@@ -15,7 +15,7 @@ for p in C01 C02 C03 C04 C05 C06 C07 C08 C09 C10 C11 C12 C13 C14 C15 C16 C17 C18
   echo "$p exit=$? $(tail -1 $S/q.out | cut -c1-110)"
 done
 $B/llvm-profdata merge -sparse $S/raw/*.profraw -o $S/all.profdata && rm -rf $S/raw
-out=/verif/work/coverage-$tier.txt
+out=/verif/notes/coverage-$tier.txt
 {
   echo "# coverage of /repo/src by the $tier tier ($(git -C /repo rev-parse --short HEAD), $(date -u +%F))"
   printf "%-30s %7s %7s %8s\n" file lines missed cover
